@@ -540,6 +540,8 @@ pub fn run(ctx: &Ctx) {
     }
     sweep(ctx, ln, &context("Init.bom", &[b"", b"\xEF\xBB", b"\xEF\xBB\xBF", b"\xEF\xBB\xBF\xEF\xBB\xBF"], b"<?xml >a", t.pick(4, 5), &[b""], false), &cfgs, &b, 64);
     ln += 1;
+    sweep(ctx, ln, &mid_bom(t.pick(2, 3)), &cfgs, &b, 64);
+    ln += 1;
     parser_layer(ctx, ln, t);
     ln += 1;
     stream_layer(ctx, ln, t);
